@@ -6,7 +6,7 @@ CONSTANTS
   MaxPathLen = 2
   WriteVals <- WThree
   MergeVals <- MQ2
-  SetKeys = {"a", "b"}
+  SetKeys = {"a"}
   MaxDepth = 2
   Variant = "intended"
   MaxHist = 0
